@@ -78,6 +78,66 @@ fn quiet<T>(f: impl FnOnce() -> T) -> T {
     f()
 }
 
+/// A store whose role table is configured: each of the two roles `e`nabled / `n`ever enabled / enabled-then-`d`isabled;
+/// the caller holds `none` (not a member), `other` (member through ORDER_KEEPER only), `mk`, `mck` or `both`
+/// (a role that is disabled keeps the caller's bit: it was granted while enabled).
+fn world_rt(mks: &str, mcks: &str, holds: &str) -> std::result::Result<World, String> {
+    let (caller, keeper, store_key, market_key) = (pk(1), pk(2), pk(3), pk(4));
+    let (hmk, hmck) = (holds == "mk" || holds == "both", holds == "mck" || holds == "both");
+    if !["none", "other", "mk", "mck", "both"].contains(&holds) || (hmk && mks == "n") || (hmck && mcks == "n") { return Err("bad-config".into()); }
+    let mut store: Box<Store> = Box::new(bytemuck::Zeroable::zeroed());
+    store.init(keeper, "", 255, pk(5), pk(6)).map_err(|e| format!("store-init {e}"))?;
+    store.enable_role(RoleKey::ORDER_KEEPER).map_err(|e| format!("enable {e}"))?;
+    // an auxiliary role lets the set-up keeper mark keys updatable even when MARKET_KEEPER is not available: the
+    // updatable table is written through the real instruction BEFORE the role states are finalised
+    for (st, r) in [(mks, RoleKey::MARKET_KEEPER), (mcks, RoleKey::MARKET_CONFIG_KEEPER)] {
+        if st != "n" { store.enable_role(r).map_err(|e| format!("enable {e}"))?; }
+    }
+    if hmk { store.grant(&caller, RoleKey::MARKET_KEEPER).map_err(|e| format!("grant {e}"))?; }
+    if hmck { store.grant(&caller, RoleKey::MARKET_CONFIG_KEEPER).map_err(|e| format!("grant {e}"))?; }
+    if holds == "other" { store.grant(&caller, RoleKey::ORDER_KEEPER).map_err(|e| format!("grant {e}"))?; }
+    let mut market = Box::<Market>::default();
+    market.init(254, store_key, "SOL/USD", pk(7), pk(8), pk(9), pk(10), true).map_err(|e| format!("market-init {e}"))?;
+    for k in MarketConfigKey::iter() { if let Ok(p) = market.get_config_mut(&k.to_string()) { *p = BASE + u16::from(k) as u128; } }
+    for f in MarketConfigFlag::iter() { let _ = market.set_config_flag(&f.to_string(), false); }
+    Ok(World { caller, keeper, store_key, market_key, store: zero_copy_bytes(&*store), market: zero_copy_bytes(&*market) })
+}
+
+/// finalise the role states after the updatable table has been set: disable what must end up disabled
+fn finish_roles(w: &mut World, mks: &str, mcks: &str) -> std::result::Result<(), String> {
+    let mut store: Box<Store> = Box::new(bytemuck::pod_read_unaligned(&w.store[8..]));
+    for (st, r) in [(mks, RoleKey::MARKET_KEEPER), (mcks, RoleKey::MARKET_CONFIG_KEEPER)] {
+        if st == "d" { store.disable_role(r).map_err(|e| format!("disable {e}"))?; }
+    }
+    w.store = zero_copy_bytes(&*store);
+    Ok(())
+}
+
+/// mark a key / flag updatable in a role-table world: through the real instruction when a MARKET_KEEPER can exist,
+/// otherwise (role never enabled) by running the instruction in a twin store and copying the permission table over
+fn set_updatable_rt(w: &mut World, mks: &str, is_flag: bool, key: &str) -> std::result::Result<(), String> {
+    let mut store: Box<Store> = Box::new(bytemuck::pod_read_unaligned(&w.store[8..]));
+    let had = mks != "n";
+    if !had { store.enable_role(RoleKey::MARKET_KEEPER).map_err(|e| format!("enable {e}"))?; }
+    store.grant(&w.keeper, RoleKey::MARKET_KEEPER).map_err(|e| format!("grant {e}"))?;
+    let saved = w.store.clone();
+    w.store = zero_copy_bytes(&*store);
+    set_updatable(w, is_flag, key)?;
+    if had {
+        let mut st: Box<Store> = Box::new(bytemuck::pod_read_unaligned(&w.store[8..]));
+        st.revoke(&w.keeper, RoleKey::MARKET_KEEPER).map_err(|e| format!("revoke {e}"))?;
+        w.store = zero_copy_bytes(&*st);
+    } else {
+        // copy only the bytes the instruction changed (the permission table) into the store that never had the role
+        let after = w.store.clone();
+        let before = zero_copy_bytes(&*store);
+        let mut out = saved;
+        for i in 0..out.len() { if before[i] != after[i] { out[i] = after[i]; } }
+        w.store = out;
+    }
+    Ok(())
+}
+
 fn call(accounts: &'static [AccountInfo<'static>], data: Vec<u8>) -> std::result::Result<(), ProgramError> {
     quiet(|| gmsol_store::entry(&gmsol_store::ID, accounts, &data))
 }
@@ -89,6 +149,8 @@ fn err_name(e: &ProgramError) -> String {
         ProgramError::Custom(c) if *c == core(CoreError::InvalidMarketConfigKey) => "InvalidMarketConfigKey".into(),
         ProgramError::Custom(c) if *c == core(CoreError::InvalidArgument) => "InvalidArgument".into(),
         ProgramError::Custom(c) if *c == core(CoreError::Unimplemented) => "Unimplemented".into(),
+        ProgramError::Custom(c) if *c == core(CoreError::NotFound) => "NotFound".into(),
+        ProgramError::Custom(c) if *c == core(CoreError::PreconditionsAreNotMet) => "PreconditionsAreNotMet".into(),
         ProgramError::Custom(c) => format!("Custom{c}"),
         other => format!("{other:?}").replace(' ', ""),
     }
@@ -188,6 +250,52 @@ fn exec_inner(t: &[&str]) -> Option<String> {
                 format!("ok {}", ks.iter().map(|k| format!("{k}={}", m.get_config(&k.to_string()).copied().unwrap_or(0))).collect::<Vec<_>>().join(";"))
             })
         }
+        ["c20", "rt", op, mks, mcks, holds, rest @ ..] => {
+            let mut w = match world_rt(mks, mcks, holds) { Ok(w) => w, Err(e) => return Some(e) };
+            match (*op, rest) {
+                ("factor", [upd, key, v]) | ("flag", [upd, key, v]) => {
+                    let is_flag = *op == "flag";
+                    let valid = if is_flag { key.parse::<MarketConfigFlag>().is_ok() } else { key.parse::<MarketConfigKey>().is_ok() };
+                    if *upd == "1" && valid { if let Err(e) = set_updatable_rt(&mut w, mks, is_flag, key) { return Some(e); } }
+                    if let Err(e) = finish_roles(&mut w, mks, mcks) { return Some(e); }
+                    let accs: &'static [AccountInfo<'static>] = Box::leak(vec![
+                        account(w.caller, true, false, anchor_lang::system_program::ID, &[]),
+                        account(w.store_key, false, false, gmsol_store::ID, &w.store),
+                        account(w.market_key, false, true, gmsol_store::ID, &w.market),
+                    ].into_boxed_slice());
+                    let data = if is_flag { gmsol_store::instruction::UpdateMarketConfigFlag { key: key.to_string(), value: *v == "1" }.data() }
+                               else { gmsol_store::instruction::UpdateMarketConfig { key: key.to_string(), value: v.parse().ok()? }.data() };
+                    let res = call(accs, data);
+                    let after = accs[2].try_borrow_data().unwrap().to_vec();
+                    let key = key.to_string();
+                    finish(res, &w.market, &after, move |m| if is_flag {
+                        match m.get_config_flag(&key) { Ok(x) => format!("ok {}", x as u8), Err(_) => "ok ?".into() }
+                    } else { match m.get_config(&key) { Ok(x) => format!("ok {x}"), Err(_) => "ok ?".into() } })
+                }
+                ("buffer", [owned, delta, upd, entries]) => {
+                    if *upd != "-" { for k in upd.split(',') { if let Err(e) = set_updatable_rt(&mut w, mks, false, k) { return Some(e); } } }
+                    if let Err(e) = finish_roles(&mut w, mks, mcks) { return Some(e); }
+                    let es = parse_entries(entries)?;
+                    let delta: i64 = delta.parse().ok()?;
+                    let authority = if *owned == "1" { w.caller } else { pk(99) };
+                    let buf = buffer_bytes(w.store_key, authority, NOW + delta, &es);
+                    let accs: &'static [AccountInfo<'static>] = Box::leak(vec![
+                        account(w.caller, true, false, anchor_lang::system_program::ID, &[]),
+                        account(w.store_key, false, false, gmsol_store::ID, &w.store),
+                        account(w.market_key, false, true, gmsol_store::ID, &w.market),
+                        account(pk(11), false, true, gmsol_store::ID, &buf),
+                    ].into_boxed_slice());
+                    let res = call(accs, gmsol_store::instruction::UpdateMarketConfigWithBuffer {}.data());
+                    let after = accs[2].try_borrow_data().unwrap().to_vec();
+                    finish(res, &w.market, &after, move |m| {
+                        let mut ks: Vec<MarketConfigKey> = MarketConfigKey::iter().filter(|k| es.iter().any(|(n, _)| *n == u16::from(*k))).collect();
+                        ks.sort_by_key(|k| u16::from(*k));
+                        format!("ok {}", ks.iter().map(|k| format!("{k}={}", m.get_config(&k.to_string()).copied().unwrap_or(0))).collect::<Vec<_>>().join(";"))
+                    })
+                }
+                _ => return None,
+            }
+        }
         _ => return None,
     })
 }
@@ -202,6 +310,29 @@ fn oracle(req: &str, resp: &str) -> Option<std::result::Result<(), String>> {
     let t: Vec<&str> = req.split(' ').collect();
     let rejected_clean = resp.starts_with("err ") && resp.ends_with(" same");
     let bad = |why: &str| Some(Err(format!("{why}: got `{resp}`")));
+    if let ["c20", "rt", op, mks, mcks, holds, rest @ ..] = t.as_slice() {
+        if resp == "bad-config" { return None; }
+        // what the caller effectively is: a role counts only while it is ENABLED in the store
+        let live_mk = (*holds == "mk" || *holds == "both") && *mks == "e";
+        let live_mck = (*holds == "mck" || *holds == "both") && *mcks == "e";
+        let cfg = format!("[MARKET_KEEPER role {mks}, MARKET_CONFIG_KEEPER role {mcks}, caller holds {holds}]");
+        // translate to the plain policy request and reuse its oracle, with two relaxations documented below
+        let plain = match (*op, rest) {
+            ("factor", [upd, key, v]) | ("flag", [upd, key, v]) => format!("c20 {op} {} {} {upd} {key} {v}", live_mk as u8, live_mck as u8),
+            ("buffer", [owned, delta, upd, entries]) => format!("c20 buffer {} {} {owned} {delta} {upd} {entries}", live_mk as u8, live_mck as u8),
+            _ => return None,
+        };
+        return match oracle(&plain, resp) {
+            Some(Ok(())) => Some(Ok(())),
+            // a config keeper (no live MARKET_KEEPER) may additionally be turned away when the MARKET_KEEPER role itself is not
+            // enabled in the store: the property only bounds a config keeper by the allow list, it does not promise acceptance
+            Some(Err(_)) if !live_mk && live_mck && *mks != "e" && rejected_clean => Some(Ok(())),
+            // somebody with no live role: any clean rejection will do (the error kind depends on the role table)
+            Some(Err(_)) if !live_mk && !live_mck && rejected_clean => Some(Ok(())),
+            Some(Err(why)) => Some(Err(format!("{cfg}: {why}"))),
+            None => None,
+        };
+    }
     match t.as_slice() {
         ["c20", kind @ ("factor" | "flag"), mk, mck, upd, key, v] => {
             let (mk, mck, upd) = (*mk == "1", *mck == "1", *upd == "1");
@@ -255,6 +386,18 @@ fn main() {
             for _ in 0..3 { v.push(format!("c20 factor {mk} {mck} {upd} {} {}", r.pick(&keys), 1 + r.num(100))); }
             for f in &flags { v.push(format!("c20 flag {mk} {mck} {upd} {f} {}", r.below(2))); }
             v.push(format!("c20 factor {mk} {mck} {upd} not_a_key 5"));
+        } } }
+        // role-table configurations: every state of the two roles x what the caller holds, all three instructions
+        for mks in ["e", "n", "d"] { for mcks in ["e", "n", "d"] { for holds in ["none", "other", "mk", "mck", "both"] {
+            if ((holds == "mk" || holds == "both") && mks == "n") || ((holds == "mck" || holds == "both") && mcks == "n") { continue; }
+            for upd in 0..2 {
+                let k = r.pick(&keys).clone();
+                v.push(format!("c20 rt factor {mks} {mcks} {holds} {upd} {k} {}", 1 + r.num(100)));
+                v.push(format!("c20 rt flag {mks} {mcks} {holds} {upd} {} {}", r.pick(&flags), r.below(2)));
+                let (k1, k2) = (r.pick(&keys).clone(), r.pick(&keys).clone());
+                let u = if upd == 1 { let mut u = vec![k1.clone(), k2.clone()]; u.sort(); u.dedup(); u.join(",") } else { k1.clone() };
+                v.push(format!("c20 rt buffer {mks} {mcks} {holds} 1 {} {u} {k1}={},{k2}={}", r.range(1, 1000), 1 + r.num(90), 1 + r.num(90)));
+            }
         } } }
         let n = cli.n.max(60);
         for _ in 0..n {
